@@ -16,3 +16,4 @@ import GldapModel.Props.FilterSession
 #print axioms Gldap.Filter.render_injective
 #print axioms Gldap.C01_filter_faithful
 #print axioms Gldap.C01_search_faithful
+#print axioms Gldap.C01_filter_fix_conservative
